@@ -10,14 +10,13 @@ open Compress.Proofs.BrCut (cmdStep DistInv readCommandsAuto cmdContAuto)
 def StartOK (sd : ByteArray) (ws : Nat) (h : Header) (lst : Bool) (B0 : Nat) (n : Nat) : Prop :=
   ∀ (s : State) (st : St) (c : Cmd) (del : List UInt8) (f B : Nat),
     Mid ws h lst s st c del → s.blkLen = (c.mlen : Int) → 1 ≤ c.mlen → s.word = [] →
-    DistInv ws c st → CapInv B0 c st → c.mlen + st.bits.length < n →
+    DistInv ws c st → c.mlen + st.bits.length < n →
     5 * (c.mlen + st.bits.length + 1) ≤ f → st.bits.length ≤ B →
     After sd ws (readCommandsAuto sd ws h c st) lst B0 B del (cmdLoop sd f .startCommand s)
 
 /-- what is fixed during a command that started with `c0` at `st0`. -/
 structure Cx (sd : ByteArray) (ws : Nat) (h : Header) (lst : Bool) (B0 : Nat) (c0 : Cmd) (st0 : St) : Prop where
   inv0 : DistInv ws c0 st0
-  cap0 : CapInv B0 c0 st0
   nd : h.ndirect ≤ 120
   ih : StartOK sd ws h lst B0 (c0.mlen + st0.bits.length)
 
@@ -84,25 +83,8 @@ theorem phase_fin (cx : Cx sd ws h lst B0 c0 st0) {s : State} {st : St} {c : Cmd
       obtain ⟨hres, hinv, hlt⟩ := res_inr cx.nd cx.inv0 chain
       rw [hres]
       have hM : ((M.toNat : Nat) : Int) = M := by omega
-      obtain ⟨cb, cl, ci, cd⟩ := cx.cap0
       refine cx.ih s st _ del f' B ⟨m.toRead, m.err, m.rd, m.win, m.zeros, m.avail, m.cr.mlen _, m.dpos, m.aligned,
-        m.mtf, m.last⟩ (by rw [hb]; exact hM.symm) (by show 1 ≤ M.toNat; omega) hw hinv ?_ hlt ?_ hB
-      · have h1 := tr.len_le
-        have h2 := tr.kM
-        have hlt' : M.toNat + st.bits.length < c0.mlen + st0.bits.length := hlt
-        refine ⟨by omega, fun hn => ?_, fun hn => ?_, fun hn => ?_⟩
-        · have := tr.kL.2 (by rw [← tr.kL.1]; exact hn)
-          have := cl (by rw [← tr.kL.1]; exact hn)
-          show 2 ^ 24 ≤ c.litB.count + _ + _
-          omega
-        · have := tr.kI.2 (by rw [← tr.kI.1]; exact hn)
-          have := ci (by rw [← tr.kI.1]; exact hn)
-          show 2 ^ 24 ≤ c.cmdB.count + _ + _
-          omega
-        · have := tr.kD.2 (by rw [← tr.kD.1]; exact hn)
-          have := cd (by rw [← tr.kD.1]; exact hn)
-          show 2 ^ 24 ≤ c.distB.count + _ + _
-          omega
+        m.mtf, m.last⟩ (by rw [hb]; exact hM.symm) (by show 1 ≤ M.toNat; omega) hw hinv hlt ?_ hB
       · have hlt' : M.toNat + st.bits.length < c0.mlen + st0.bits.length := hlt
         show 5 * (M.toNat + st.bits.length + 1) ≤ f'
         omega
